@@ -121,6 +121,10 @@ func opKafka(st *state, args []string) []string {
 			for {
 				select {
 				case e := <-ec.Errors():
+					if e == nil {
+						// cmd/goflow2/main.go stops listening at the nil end marker: nobody reads the stream from here on
+						return
+					}
 					if e != nil {
 						emu.Lock()
 						if errSeen == 0 {
